@@ -15,6 +15,7 @@ let () =
   | _ :: "evallex" :: _ -> L_eval.run_lexical ()
   | _ :: "typing" :: _ -> L_eval.run_typing ()
   | _ :: "strat" :: _ -> L_eval.run_strat ()
+  | _ :: "doc" :: _ -> L_eval.run_doc ()
   | _ ->
       prerr_endline "usage: oalmodel <layer>";
       exit 2
